@@ -26,6 +26,7 @@ use std::{
     fs::{self, File, OpenOptions},
     io::{self, BufWriter, Write},
     path::{Path, PathBuf},
+    sync::atomic::{AtomicBool, Ordering},
 };
 
 #[cfg(feature = "config_parsing")]
@@ -174,6 +175,8 @@ pub struct RollingFileAppender {
     writer: Mutex<Option<LogWriter>>,
     path: PathBuf,
     append: bool,
+    // Whether the log file has been opened before. Only the first open may truncate.
+    opened: AtomicBool,
     encoder: Box<dyn Encode>,
     policy: Box<dyn policy::Policy>,
 }
@@ -234,17 +237,17 @@ impl RollingFileAppender {
 
     fn get_writer<'a>(&self, writer: &'a mut Option<LogWriter>) -> io::Result<&'a mut LogWriter> {
         if writer.is_none() {
+            // Truncate mode discards existing content when the appender starts. A later
+            // re-open finds either no file (it was rolled away) or, after a failed roll, the
+            // file that still holds acknowledged records, which must be kept.
+            let append = self.append || self.opened.swap(true, Ordering::Relaxed);
             let file = OpenOptions::new()
                 .write(true)
-                .append(self.append)
-                .truncate(!self.append)
+                .append(append)
+                .truncate(!append)
                 .create(true)
                 .open(&self.path)?;
-            let len = if self.append {
-                file.metadata()?.len()
-            } else {
-                0
-            };
+            let len = if append { file.metadata()?.len() } else { 0 };
             *writer = Some(LogWriter {
                 file: BufWriter::with_capacity(1024, file),
                 len,
@@ -297,6 +300,7 @@ impl RollingFileAppenderBuilder {
             writer: Mutex::new(None),
             path: path.as_ref().into(),
             append: self.append,
+            opened: AtomicBool::new(false),
             #[cfg(not(log4rs_verif))]
             encoder: self
                 .encoder
